@@ -287,6 +287,21 @@ pub fn channel(rng: &mut StdRng, family: &str, bps: usize, n: usize) -> Vec<i32>
             let a = rng.gen_range(3..=12i64);
             v.iter_mut().for_each(|x| *x = rng.gen_range(-a..=a) as i32);
         }
+        "attack" => {
+            // loud noise for the first 24..32 samples, then a quiet first-order autoregressive tail
+            let head = rng.gen_range(24..=32usize).min(n);
+            let a = (hi / 5).max(4);
+            let q = rng.gen_range(8..=28i64);
+            let mut state = 0f64;
+            for t in 0..n {
+                v[t] = if t < head {
+                    rng.gen_range(-a..=a) as i32
+                } else {
+                    state = 0.9 * state + rng.gen_range(-q..=q) as f64;
+                    (state as i64).clamp(lo, hi) as i32
+                };
+            }
+        }
         "weakar" => {
             // weakly correlated: AR(10) with ten small equal coefficients (each far below 0.25, so the
             // quantiser's shift saturates), driven by moderate noise; the LPC subframe wins with tiny coefficients
